@@ -4,5 +4,5 @@ set -eu
 cd "$(dirname "$0")"
 export CARGO_NET_OFFLINE=true
 mkdir -p work evidence
-( cd harness && cargo build --release --offline )
+( cd harness && cargo build --release --offline && cargo build --profile nodebug --offline )
 echo "setup ok"
